@@ -59,6 +59,7 @@ theorem feeOf_of_ok {m : Nat} {tx : Tx} {f : Nat} (h : tx.baseFee m = .ok f) : f
 
 /-- the per-transaction step of `createNextState` -/
 def feeStep (env : Env) (tip906 : Bool) (st : State) (tx : Tx) : Outcome State :=
+  if st.txs.any (fun t => t.hash = tx.hash) then .reject .duplicateTx else
   (if tx.kind = .faucet then handleFaucetTx env st tx else .ok st).bind fun st1 =>
   (Outcome.foldlM' (fun (coins : CoinMap) id => coins.removeCoin id tip906) st1.coins tx.inputs).bind fun coins2 =>
   (tx.baseFee st1.feeMultiplier).bind fun minFee =>
@@ -85,6 +86,8 @@ theorem feeStep_ok {env : Env} {tip906 : Bool} {st st' : State} {tx : Tx}
       st'.feePool = satAdd128 st.feePool f ∧
       st'.tips = satAdd128 st.tips (tx.fee - f) := by
   unfold feeStep at h
+  split at h
+  · cases h
   obtain ⟨st1, h1, h⟩ := bind_ok h
   obtain ⟨coins2, _, h⟩ := bind_ok h
   obtain ⟨f, hf, h⟩ := bind_ok h
